@@ -20,8 +20,32 @@ CHECKS = {
          "Source positions of runtime errors (lineNumber/columnNumber) and stack text are not decided (documented limitation of the engine). K3 checks are syntactic.", "DESIGN.md 5 C07"),
  "C14": ("proof", "Compiler._emit/_emit_jump/_patch_jump are proved (K1, unbounded operands and code lengths): appended bytes are in range(256), a 1-byte operand is stored exactly or the program is refused with JSError, a 16-bit jump target decodes (low | high << 8, the VM's expression, tied by K2) to the intended target or is refused; the bytes before/after are unchanged. K3/K2: both VM decoders and the compiler's width table agree.",
          "Bounded part: shape templates swept across 255/256 and 65535/65536 with closed-form results.", "DESIGN.md 5 C14"),
+ "C03": ("proof", "K3: every reflective call (getattr/setattr/hasattr/...) in vm.py, context.py and values.py has a literal attribute name; the script-controlled key of _get/_set/_delete_property flows only into property dictionaries, conversions and the fixed method tables; every _make_*_method factory selects from a literal table. Bounded: receiver kind x property name (all attributes of internal classes, dunders, fresh names) x access form grid with a run-time monitor asserting that every value pushed or stored is a JavaScript value.",
+         "Sink typing of every native is checked at run time by the monitor (bounded), not proved.", "DESIGN.md 5 C03"),
+ "C04": ("proof", "K3: every raise statement of src/microjs is classified: only the JSError family, or a private class converted at a listed site; every emitted opcode has a branch. Bounded: source fuzz (soups, truncations, splices, mutations of the corpus) under a watchdog with JSSyntaxError positions checked, and every built-in called over an adversarial argument grid.",
+         "Absence of run-time errors is proved per function only where a K1 contract exists (C06, C14, C16, C17 coercions); the rest is bounded. Embedder-supplied callables raising their own exceptions are out of scope.", "DESIGN.md 5 C04"),
+ "C09": ("exploration", "Bounded (as planned in DESIGN): the character sets of \\d \\w \\s . and negations are checked over all 0x110000 code points through the real engine (exhaustion); all patterns of up to 2 atoms (3 in thorough) over a 3-letter alphabet with every operator kind are compared on 43 subjects with a reference backtracking matcher on the fragment where the dialects coincide.",
+         "The whole-matcher equivalence is out of deductive reach; no unbounded claim is made. Captures inside quantified groups are compared only where the reference dialect agrees with ECMAScript.", "DESIGN.md 5 C09"),
+ "C10": ("proof", "K3: the regex parser raises only RegExpError, construction converts it into a catchable SyntaxError, RegexStackOverflow/RegexTimeoutError are converted at every matcher entry point, the main matcher loop counts steps, bounds its stack and polls the deadline. Bounded: pattern soups/mutations through every regex API and catastrophic-backtracking families under a watchdog.",
+         "Sub-matchers of look-around have no step budget (known findings). K3 checks are syntactic.", "DESIGN.md 5 C10"),
+ "C11": ("proof", "K3: set/get/eval apply _to_js/_to_python exactly once per crossing, bool before int, fresh containers, own data properties only, native call protocol passes arguments positionally and converts results. Bounded: generated JSON-like values (round trip, freshness), script results, shared/cyclic structures, exposed callables, interleavings.",
+         "The recursive conversions are not proved by induction (loops/comprehensions outside the VC subset); bounded only.", "DESIGN.md 5 C11"),
+ "C12": ("proof", "K3: no module-level or class-level mutable state, no caches, per-context construction of built-ins, one globals dictionary shared by identity with every VM of a context, fresh VM per eval, _current_vm reset on every exit. Bounded: all histories of length 2 and sampled histories up to 5 over two contexts against a one-dictionary-per-context model.",
+         "'As if the error had not happened' over arbitrary histories is a hyper-property and is only sampled (bounded).", "DESIGN.md 5 C12"),
+ "C13": ("proof", "Exhaustion: every ordered pair of binary operators, minimally parenthesised, evaluates like the tree prescribed by ECMAScript precedence/associativity, and parser.PRECEDENCE orders operators like ECMA-262. Bounded: trivia and parenthesis insertion, literal spellings, rejection of malformed sources.",
+         "The precedence-climbing loop for deeper trees and the print/parse round trip are not decided. Eight rejection cases are known findings.", "DESIGN.md 5 C13"),
+ "C15": ("proof", "K3: every consumer of set iteration order in the compiler feeds name-keyed tables only; slots, cells and closure wiring are resolved by name; no hidden inputs (clock, random, id, hash) outside the allow-list. Bounded: generated closure-heavy programs with a known result (Python twin) under 16 hash seeds and shuffled batch orders.",
+         "K3 is syntactic (allow-listed forms).", "DESIGN.md 5 C15"),
+ "C17": ("proof", "K1: the element coercion of every integer typed-array kind equals ToInt8..ToUint32 for all Numbers and never raises. Bounded: (method, receiver, args) grid against a list model written from ECMA-262 23.1.3, callback protocol traces, sort stability/undefined-last, aliasing, length/index writes, typed-array views.",
+         "Array methods themselves are checked against the list model only on the grid (bounded): their loops need invariants that were not written. subarray copying is a known finding.", "DESIGN.md 5 C17"),
+ "C18": ("proof", "Exhaustion: Number->String over every (digit count, decimal exponent, sign) shape of the shortest representation (A-IEEE: repr gives the shortest digits). Bounded: toFixed/toExponential/toPrecision/toString(radix) against exact-rational spec functions, parseInt/parseFloat/Number grids, Math special-value table and never-raises grid.",
+         "Math accuracy within one ulp is not decided. Digit generation of toFixed/toPrecision/toExponential is a known finding (binary floating point rounding).", "DESIGN.md 5 C18"),
+ "C19": ("proof", "K3 adapter obligations on the real closures (constants rejected by hook, catchable error classes, no host encoder, numbers by Number::toString). Bounded: generated values, texts and near-miss texts against an independent serializer written from ECMA-262 25.5 and the JSON grammar; round trips.",
+         "json.loads with parse_constant is an assumed dependency contract (acceptance of the JSON grammar), cross-checked on the generated texts.", "DESIGN.md 5 C19"),
+ "C20": ("exploration", "Bounded: sampled histories up to length 3 (4 in thorough) over {exec, test, lastIndex = k, read} x flags x patterns (incl. empty-matching) x subjects against an explicit RegExpBuiltinExec state machine, and String match/replace/replaceAll/split/search against the ECMAScript algorithms (GetSubstitution, @@split) over an abstract matcher.",
+         "No deductive obligation was discharged for this property in the time available; claimed as exploration.", "DESIGN.md 5 C20"),
 }
-NA_REASON = "check not built yet (build in progress; see DESIGN.md section 5)"
+NA_REASON = "the planned heap-model contracts (DESIGN.md 5 C08) and the bounded object-graph histories were not built in the time available; no check is claimed for this property"
 m = {"version": 1,
      "setup_cmd": "cd /verif && python3-vt check.py --selftest",
      "hooks": {"guard": "MICROJS_VERIF", "enable": "no repository hooks: ghost state and monitors wrap real functions from sidecar files under /verif",
